@@ -74,6 +74,9 @@ class V2(object):
 
         class OS(object):
             SEEK_SET, SEEK_END = 0, 2
+            pwrite = staticmethod(lambda fd, data, offset: fd.pwrite_direct(data, offset))
+            fsync = staticmethod(lambda fd: fd.flush())
+            fdatasync = staticmethod(lambda fd: fd.flush())
 
             class path(object):
                 exists = staticmethod(lambda p: True)
@@ -234,6 +237,9 @@ class V1(object):
 
         class OS(object):
             SEEK_SET, SEEK_END = 0, 2
+            pwrite = staticmethod(lambda fd, data, offset: fd.pwrite_direct(data, offset))
+            fsync = staticmethod(lambda fd: fd.flush())
+            fdatasync = staticmethod(lambda fd: fd.flush())
 
             class path(object):
                 exists = staticmethod(lambda p: True)
